@@ -1,4 +1,420 @@
+/-
+C50 — Objects are encapsulated by their blueprint (PARTIAL).
+
+Full statement (properties.jsonl): only code of an object's own blueprint (or, for an inner object, of
+its outer object) can create, drop or globalize that object or read and write its state; proofs may
+be dropped by whoever holds them; no component can drop, globalize or modify another blueprint's
+buckets, vaults, address reservations or components, whatever node references it obtains.
+
+Theorems (about `Model/Encapsulation.lean`, the transcription of the checks of system.rs/actor.rs),
+for ALL actors, nodes, reservations, scripts and call nestings:
+
+* `drop_iff` / `drop_only_own_or_outer` — `drop_object` succeeds exactly when (proof blueprint and the
+  actor IS the proof blueprint) or (the object has an outer object and it is the actor's instance
+  context) or (no outer object and the actor's blueprint is the object's blueprint).
+* `proofs_droppable_by_holder` — `Proof::drop` (a function of the proof blueprint, callable by
+  whoever holds the proof) always passes the check; `foreign_cannot_drop_bucket_or_proof`.
+* `globalize_iff` / `globalize_only_own` — `globalize` succeeds exactly when the reservation (given or
+  freshly allocated) is for the object's blueprint and that blueprint's PACKAGE is the actor's
+  package.  NOTE: the code compares packages, not blueprints (`InvalidGlobalizeAccess` is raised on
+  `reserved_blueprint_id.package_address != actor.package_address()`), so the property's "own
+  blueprint" holds only at package granularity for globalize and create:
+  `globalize_by_sibling_blueprint_possible` is the machine-checked witness.
+* `create_only_own_package` — a new object always gets the actor's package; an inner object is created
+  under the actor's instance context, whose blueprint name is the declared outer blueprint.
+* `state_handles_self_or_outer` — an actor state handle opens only the receiver's own field or its
+  outer object's field, and only for method actors.
+* `frame` — in every execution of every script (any nesting of method/function calls, any register
+  passing) every create / drop / globalize effect was authorised for the actor that performed it;
+  `frame_drop`, `frame_globalize` spell out the consequence for foreign objects.
+
+NOT proved / not modelled: the kernel's visibility and reference rules underneath (which nodes an
+actor can name at all), module methods / direct access / hooks, key-value entries
+(`actor_open_key_value_entry` resolves its node by the same `get_actor_object_id`), the fuel bound of
+`exec` (`exec 0` is the explicit outcome `refused`).  The correspondence run compares every result
+class of the real system calls with the model on generated scripts.
+-/
 import RadixModel.Model.Encapsulation
+
 namespace Radix.Encap
-theorem placeholder_c50 : initGlobals.length = 3 := rfl
+
+/-! ### drop -/
+
+theorem drop_iff (a : Actor) (bp : Bp) (outer : Option Nat) :
+    dropObject a (.obj bp outer) = .ok ↔
+      (bp = proofBp ∧ a.bp = proofBp) ∨
+      (bp ≠ proofBp ∧ ∃ o, outer = some o ∧ a.ctx = some o) ∨
+      (bp ≠ proofBp ∧ outer = none ∧ a.bp = bp) := by
+  by_cases hp : bp = proofBp
+  · subst hp
+    by_cases ha : proofBp = a.bp
+    · simp [dropObject, ← ha]
+    · have ha' : ¬ a.bp = proofBp := fun e => ha e.symm
+      simp [dropObject, ha, ha']
+  · cases outer with
+    | none =>
+      by_cases ha : bp = a.bp
+      · simp [dropObject, hp, ← ha]
+      · have ha' : ¬ a.bp = bp := fun e => ha e.symm
+        simp [dropObject, hp, ha, ha']
+    | some o =>
+      by_cases ha : a.ctx = some o
+      · simp [dropObject, hp, ha]
+      · simp [dropObject, hp, ha]
+
+/-- Only the object's own blueprint — or, for an inner object, code running for its outer object —
+passes the `drop_object` check; address reservations are never droppable through it. -/
+theorem drop_only_own_or_outer (a : Actor) (k : Kind) (h : dropObject a k = .ok) :
+    ∃ bp outer, k = .obj bp outer ∧
+      ((bp = proofBp ∧ a.bp = proofBp) ∨
+       (∃ o, outer = some o ∧ a.ctx = some o) ∨
+       (outer = none ∧ a.bp = bp)) := by
+  cases k with
+  | resv b => simp [dropObject] at h
+  | obj bp outer =>
+    refine ⟨bp, outer, rfl, ?_⟩
+    rcases (drop_iff a bp outer).mp h with h1 | ⟨_, h2⟩ | ⟨_, h3⟩
+    · exact Or.inl h1
+    · exact Or.inr (Or.inl h2)
+    · exact Or.inr (Or.inr h3)
+
+example : dropObject (.meth ⟨0, 0⟩ (some 0) none) (.obj ⟨0, 2⟩ (some 0)) = .ok := by decide
+example : dropObject (.meth ⟨0, 0⟩ (some 0) none) (.obj ⟨0, 1⟩ none) = .invalidDropAccess := by decide
+
+/-- Whoever holds a proof can drop it by calling `Proof::drop`: the actor is then the proof
+blueprint's function and the check passes whatever the proof's outer object is. -/
+theorem proofs_droppable_by_holder (outer : Option Nat) :
+    dropObject (.func proofBp) (.obj proofBp outer) = .ok := by
+  simp [dropObject, Actor.bp]
+
+/-- No actor of another package can drop a bucket or a proof directly. -/
+theorem foreign_cannot_drop_bucket_or_proof (a : Actor) (hp : a.bp.pkg ≠ resPkg)
+    (hc : a.ctx ≠ some resOuter) :
+    dropObject a (.obj bucketBp (some resOuter)) = .invalidDropAccess ∧
+    dropObject a (.obj proofBp (some resOuter)) = .invalidDropAccess := by
+  constructor
+  · have : bucketBp ≠ proofBp := by decide
+    simp [dropObject, this, hc]
+  · have : proofBp ≠ a.bp := by
+      intro e; apply hp; rw [← e]; rfl
+    simp [dropObject, this]
+
+/-! ### globalize -/
+
+theorem globalize_iff (a : Actor) (k : Kind) (res : Option Kind) :
+    globalize a k res = .ok ↔
+      ∃ b outer, k = .obj b outer ∧ b.pkg = a.bp.pkg ∧ b.pkg ≠ resPkg ∧
+        (res = none ∨ res = some (.resv b)) := by
+  unfold globalize
+  constructor
+  · intro h
+    cases res with
+    | none =>
+      cases k with
+      | resv b => simp at h
+      | obj b outer =>
+        simp only at h
+        split at h
+        · cases h
+        next hpk =>
+          simp only [ne_eq, not_true_eq_false, if_false] at h
+          split at h
+          · cases h
+          next hr => exact ⟨b, outer, rfl, by simpa using hpk, hr, Or.inl rfl⟩
+    | some r =>
+      cases r with
+      | obj b' o' => simp at h
+      | resv rb =>
+        simp only at h
+        split at h
+        · cases h
+        next hpk =>
+          cases k with
+          | resv b => simp at h
+          | obj b outer =>
+            simp only at h
+            split at h
+            · cases h
+            next hb =>
+              split at h
+              · cases h
+              next hr =>
+                have hb' : b = rb := by simpa using hb
+                subst hb'
+                exact ⟨b, outer, rfl, by simpa using hpk, hr, Or.inr rfl⟩
+  · rintro ⟨b, outer, rfl, hpk, hr, hres | hres⟩
+    · subst hres
+      simp [hpk, hr]
+      exact hpk ▸ hr
+    · subst hres
+      simp [hpk, hr]
+      exact hpk ▸ hr
+
+/-- Only code of the object's own PACKAGE can globalize it, and only with a reservation made for
+exactly the object's blueprint (so a reservation of another blueprint cannot be spent on it, and
+buckets, proofs and reservations can never be globalized by a foreign package). -/
+theorem globalize_only_own (a : Actor) (k : Kind) (res : Option Kind) (h : globalize a k res = .ok) :
+    ∃ b outer, k = .obj b outer ∧ b.pkg = a.bp.pkg ∧ (res = none ∨ res = some (.resv b)) := by
+  obtain ⟨b, outer, h1, h2, _, h4⟩ := (globalize_iff a k res).mp h
+  exact ⟨b, outer, h1, h2, h4⟩
+
+/-- Witness that the check is per package, not per blueprint: code of blueprint "B" globalizes an
+object of its sibling blueprint "A". -/
+theorem globalize_by_sibling_blueprint_possible :
+    globalize (.func ⟨0, 1⟩) (.obj ⟨0, 0⟩ none) none = .ok := by decide
+
+example : globalize (.func ⟨1, 0⟩) (.obj ⟨0, 0⟩ none) none = .invalidGlobalizeAccess := by decide
+example : globalize (.func ⟨0, 0⟩) (.obj ⟨0, 0⟩ none) (some (.resv ⟨0, 1⟩)) = .invalidBlueprintId := by
+  decide
+
+/-! ### create -/
+
+/-- A new object always belongs to the actor's own package; an inner object is placed under the
+actor's instance context, which must be an object of the declared outer blueprint. -/
+theorem create_only_own_package (gs : List Bp) (a : Actor) (name : Nat) (k : Kind)
+    (h : newObject gs a name = (.ok, some k)) :
+    ∃ outer, k = .obj ⟨a.bp.pkg, name⟩ outer ∧
+      (innerOf name = none → outer = none) ∧
+      (∀ on, innerOf name = some on →
+        ∃ g b, a.ctx = some g ∧ outer = some g ∧ globalBp gs g = some b ∧ b.name = on) := by
+  unfold newObject at h
+  split at h
+  · cases h
+  · cases hin : innerOf name with
+    | none =>
+      rw [hin] at h
+      simp only [Prod.mk.injEq, Option.some.injEq, true_and] at h
+      exact ⟨none, h.symm, fun _ => rfl, fun on hon => by cases hon⟩
+    | some on =>
+      rw [hin] at h
+      simp only at h
+      split at h
+      · cases h
+      next g hg =>
+        split at h
+        next b hb =>
+          split at h
+          next hn =>
+            simp only [Prod.mk.injEq, Option.some.injEq, true_and] at h
+            refine ⟨some g, h.symm, (fun e => by cases e), ?_⟩
+            intro on' hon'
+            cases hon'
+            exact ⟨g, b, hg, rfl, hb, hn⟩
+          · cases h
+        · cases h
+
+example : newObject initGlobals (.meth ⟨0, 0⟩ (some 0) none) 2 = (.ok, some (.obj ⟨0, 2⟩ (some 0))) := by
+  decide
+example : (newObject initGlobals (.func ⟨0, 0⟩) 2).1 = .invalidChildObjectCreation := by decide
+
+/-! ### actor state handles -/
+
+/-- `actor_open_field` / `actor_open_key_value_entry` resolve their node through
+`get_actor_object_id`: it is the receiver itself (SELF) or the receiver's outer object
+(OUTER_OBJECT), never any other node, and never for a function actor. -/
+theorem state_handles_self_or_outer (a : Actor) (handle : Nat) (t : Unit ⊕ Nat)
+    (h : actorOpenField a handle = (.ok, some t)) :
+    ∃ bp sg outer, a = .meth bp sg outer ∧
+      ((handle = 0 ∧ t = .inl ()) ∨ (handle = 1 ∧ ∃ g, outer = some g ∧ t = .inr g)) := by
+  unfold actorOpenField at h
+  split at h
+  · cases h
+  next hh =>
+    cases a with
+    | func b => simp at h
+    | meth bp sg outer =>
+      refine ⟨bp, sg, outer, rfl, ?_⟩
+      simp only at h
+      split at h
+      next h0 =>
+        simp only [Prod.mk.injEq, Option.some.injEq, true_and] at h
+        exact Or.inl ⟨h0, h.symm⟩
+      next h0 =>
+        have h1 : handle = 1 := by
+          by_cases e : handle = 1
+          · exact e
+          · exact absurd ⟨h0, e⟩ hh
+        cases outer with
+        | none => simp at h
+        | some g =>
+          simp only [Prod.mk.injEq, Option.some.injEq, true_and] at h
+          exact Or.inr ⟨h1, g, rfl, h.symm⟩
+
+example : actorOpenField (.meth ⟨0, 2⟩ none (some 0)) 1 = (.ok, some (.inr 0)) := by decide
+
+/-! ### frame: whole executions -/
+
+theorem newObject_snd_some (gs : List Bp) (a : Actor) (name : Nat) (k : Kind)
+    (h : (newObject gs a name).2 = some k) : (newObject gs a name).1 = .ok := by
+  revert h
+  unfold newObject
+  repeat' split
+  all_goals simp
+
+/-- an entry of the effect log was authorised for the actor that performed it -/
+def Authorized (e : Actor × Eff × Kind) : Prop :=
+  (e.2.1 = Eff.drop ∧ dropObject e.1 e.2.2 = .ok) ∨
+  (e.2.1 = Eff.globalize ∧ ∃ res, globalize e.1 e.2.2 res = .ok) ∨
+  (e.2.1 = Eff.new ∧ ∃ gs name, newObject gs e.1 name = (.ok, some e.2.2))
+
+def LogOK (st : St) : Prop := ∀ e ∈ st.log, Authorized e
+
+theorem LogOK_snoc (st : St) (e : Actor × Eff × Kind) (h : LogOK st) (he : Authorized e)
+    (gs : List Bp) (fu : Bool) : LogOK { globals := gs, faucetUsed := fu, log := st.log ++ [e] } := by
+  intro x hx
+  rcases List.mem_append.mp hx with h1 | h1
+  · exact h x h1
+  · simp only [List.mem_singleton] at h1
+    subst h1
+    exact he
+
+theorem LogOK_same (st : St) (h : LogOK st) (gs : List Bp) (fu : Bool) :
+    LogOK { globals := gs, faucetUsed := fu, log := st.log } := h
+
+set_option hygiene false in
+/-- close a branch of `frame`: the state is unchanged, or one / two recursive calls on an OK log -/
+macro "fin" : tactic => `(tactic| (
+  (try dsimp only)
+  first
+    | exact h
+    | exact ih _ _ _ _ h
+    | (apply ih; exact ih _ _ _ _ h)
+    | exact ih _ _ _ _ (LogOK_same _ h _ _)))
+
+/-- Frame property: whatever script runs — any nesting of method and function calls, any passing of
+nodes between frames — every object creation, drop and globalization that happens was authorised by
+the system-layer check for the actor that performed it. -/
+theorem frame (fuel : Nat) : ∀ (a : Actor) (regs : Regs) (script : List Nat) (st : St),
+    LogOK st → LogOK (exec fuel a regs script st).st := by
+  induction fuel with
+  | zero => intro a regs script st h; simpa [exec] using h
+  | succ f ih =>
+    intro a regs script st h
+    unfold exec
+    split
+    · fin
+    · -- NEW
+      rename_i name rest
+      dsimp only
+      apply ih
+      cases hk : (newObject st.globals a name).2 with
+      | none => simpa [hk] using h
+      | some k =>
+        dsimp only
+        apply LogOK_snoc st _ h
+        right; right
+        exact ⟨rfl, st.globals, name, Prod.ext (newObject_snd_some st.globals a name k hk) hk⟩
+    · -- DROP
+      split
+      · fin
+      next k hk =>
+        dsimp only
+        split
+        next hr =>
+          dsimp only
+          apply ih
+          exact LogOK_snoc st _ h (Or.inl ⟨rfl, hr⟩) _ _
+        · fin
+    · -- ALLOC
+      fin
+    · -- GLOBALIZE
+      split
+      next k res hk hres =>
+        split
+        · fin
+        · dsimp only
+          split
+          next hr =>
+            split
+            next b o =>
+              dsimp only
+              apply ih
+              exact LogOK_snoc st _ h (Or.inr (Or.inl ⟨rfl, res, hr⟩)) _ _
+            · fin
+          · fin
+      · fin
+    · -- FIELD
+      fin
+    · -- CALL METHOD
+      try dsimp only
+      split
+      · fin
+      · try dsimp only
+        split
+        · fin
+        · split
+          · fin
+          · split
+            · fin
+            · try dsimp only
+              split
+              · fin
+              · fin
+    · -- CALL FUNCTION
+      try dsimp only
+      split
+      · fin
+      · try dsimp only
+        split
+        · fin
+        · split
+          · fin
+          · try dsimp only
+            split
+            · fin
+            · fin
+    · -- BUCKET
+      split
+      · fin
+      · fin
+    · -- PROOF
+      split
+      · split
+        · fin
+        · fin
+      · fin
+    · -- Proof::drop
+      split
+      next bp outer hk =>
+        split
+        next hp =>
+          dsimp only
+          apply ih
+          subst hp
+          exact LogOK_snoc st _ h (Or.inl ⟨rfl, proofs_droppable_by_holder outer⟩) _ _
+        · fin
+      · fin
+    · fin
+
+/-- Every drop that happens in any execution of any script was performed by the object's own
+blueprint, by code running for its outer object, or (proofs) by the proof blueprint. -/
+theorem frame_drop (pkg name : Nat) (script : List Nat) (a : Actor) (k : Kind)
+    (h : (a, Eff.drop, k) ∈ (runScript pkg name script).st.log) :
+    ∃ bp outer, k = .obj bp outer ∧
+      ((bp = proofBp ∧ a.bp = proofBp) ∨ (∃ o, outer = some o ∧ a.ctx = some o) ∨
+       (outer = none ∧ a.bp = bp)) := by
+  have hl := frame (script.length + 1) (.func ⟨pkg, name⟩) [] script
+    { globals := initGlobals, faucetUsed := false, log := [] } (by intro e he; cases he)
+  rcases hl _ h with ⟨_, h1⟩ | ⟨h1, _⟩ | ⟨h1, _⟩
+  · exact drop_only_own_or_outer a k h1
+  · cases h1
+  · cases h1
+
+/-- Every globalization that happens in any execution was performed by code of the object's package. -/
+theorem frame_globalize (pkg name : Nat) (script : List Nat) (a : Actor) (k : Kind)
+    (h : (a, Eff.globalize, k) ∈ (runScript pkg name script).st.log) :
+    ∃ b outer, k = .obj b outer ∧ b.pkg = a.bp.pkg := by
+  have hl := frame (script.length + 1) (.func ⟨pkg, name⟩) [] script
+    { globals := initGlobals, faucetUsed := false, log := [] } (by intro e he; cases he)
+  rcases hl _ h with ⟨h1, _⟩ | ⟨_, res, h1⟩ | ⟨h1, _⟩
+  · cases h1
+  · obtain ⟨b, outer, e, hp, _⟩ := globalize_only_own a k res h1
+    exact ⟨b, outer, e, hp⟩
+  · cases h1
+
+/-- non-vacuity: a script in which package 1 receives an object of package 0 and fails to drop it,
+after which package 0 drops it. -/
+example : ((runScript 0 0 [1, 0, 7, 1, 0, 1, 0, 2, 2, 0, 2, 1]).trace =
+    [.ok, .invalidDropAccess, .ok, .ok]) := by decide
+
 end Radix.Encap
